@@ -1512,6 +1512,12 @@ class TimePoint:
             second_of_minute = 0
         if second_of_minute is not None or minute_of_hour is not None:
             new = new.to_hour_minute_second()
+            if new._second_of_minute != int(new._second_of_minute):
+                # The fields to match are whole seconds, and the result must
+                # not be earlier than this point: start from the next whole
+                # second (a fraction would never match, looping forever).
+                new._second_of_minute = int(new._second_of_minute) + 1.0
+                new._tick_over()
         if second_of_minute is not None:
             while new._second_of_minute != second_of_minute:
                 new._second_of_minute += 1.0
